@@ -181,3 +181,66 @@ Proof.
 Qed.
 
 End Mem.
+
+
+(* ---------- chunks ---------- *)
+
+Lemma fh_firstn_prefix (v : list Z) d d' : fh (firstn d v) = -1 -> (d' <= d)%nat -> fh (firstn d' v) = -1.
+Proof.
+  intros H Hd. replace (firstn d' v) with (firstn d' (firstn d v)) by (rewrite firstn_firstn, Nat.min_l by lia; reflexivity).
+  rewrite <- (firstn_skipn d' (firstn d v)) in H. rewrite fh_app in H.
+  destruct (fh (firstn d' (firstn d v)) <? 0) eqn:E.
+  - destruct (fh_range (firstn d' (firstn d v))); lia.
+  - destruct (fh_range (firstn d' (firstn d v))); lia.
+Qed.
+
+(* scanning the chunk [off, off+w) after a prefix without a high byte *)
+Lemma fh_chunk (v : list Z) off w :
+  (off + w <= length v)%nat -> fh (firstn off v) = -1 ->
+  let ch := firstn w (skipn off v) in
+  (movmsk ch = 0 -> fh (firstn (off + w) v) = -1) /\
+  (movmsk ch <> 0 -> fh v = Z.of_nat off + fh ch /\ 0 <= fh ch < Z.of_nat w).
+Proof.
+  intros Hl Hp. cbv zeta. set (ch := firstn w (skipn off v)).
+  assert (E1 : firstn (off + w) v = firstn off v ++ ch) by (unfold ch; apply firstn_add).
+  assert (Lc : length ch = w) by (unfold ch; rewrite firstn_length, skipn_length; lia).
+  assert (Lo : length (firstn off v) = off) by (rewrite firstn_length; lia).
+  split.
+  - intros Z0. apply movmsk_zero in Z0. rewrite E1, fh_app, Hp, Z0. reflexivity.
+  - intros NZ. assert (Hc : fh ch <> -1) by (intros E; apply movmsk_zero in E; congruence).
+    destruct (fh_range ch) as [E|E]; [congruence|]. rewrite Lc in E. split; [|exact E].
+    rewrite <- (firstn_skipn (off + w) v), E1, fh_app, fh_app, Hp, Lo.
+    change (-1 <? 0) with true. cbv iota. replace (fh ch <? 0) with false by lia.
+    replace (Z.of_nat off + fh ch <? 0) with false by lia. reflexivity.
+Qed.
+
+Lemma fh_all (v : list Z) : fh (firstn (length v) v) = fh v.
+Proof. rewrite firstn_all. reflexivity. Qed.
+
+(* the AVX2 test: (data AND 0x80) compared with 0x80 has the same mask as the data *)
+Definition eqmask (x y : Z) : Z := if x =? y then 255 else 0.
+
+Lemma land128 b : 0 <= b < 256 -> Z.land 128 b = if 128 <=? b then 128 else 0.
+Proof.
+  intros Hb.
+  assert (C : forallb (fun x => Z.land 128 x =? (if 128 <=? x then 128 else 0)) (map Z.of_nat (seq 0 256)) = true) by (vm_compute; reflexivity).
+  rewrite forallb_forall in C. specialize (C b). apply Z.eqb_eq. apply C.
+  apply in_map_iff. exists (Z.to_nat b). split; [lia|]. apply in_seq. lia.
+Qed.
+
+Lemma hi_mask data : Forall (fun b => 0 <= b < 256) data ->
+  let n := length data in
+  let y3 := map2 eqmask (repeat 128 n) (map2 Z.land (repeat 128 n) data) in
+  movmsk y3 = movmsk data /\ forallb (fun x => x =? 0) (map2 Z.land y3 y3) = (movmsk data =? 0) /\ length y3 = n.
+Proof.
+  induction 1 as [|b data Hb Hd IH]; [cbn; auto|].
+  cbv zeta in *. cbn [length repeat map2 movmsk forallb]. destruct IH as (I1 & I2 & I3).
+  rewrite I1, I2, I3.
+  pose proof (land128 b Hb) as Hland.
+  rewrite Hland. pose proof (movmsk_range data) as R.
+  destruct (128 <=? b) eqn:B.
+  - unfold eqmask at 1 2 3. change (128 =? 128) with true. cbv iota. change (128 <=? 255) with true. change (Z.land 255 255) with 255. change (255 =? 0) with false.
+    cbn [andb]. repeat split; lia.
+  - unfold eqmask at 1 2 3. change (128 =? 0) with false. cbv iota. change (128 <=? 0) with false. change (Z.land 0 0) with 0. change (0 =? 0) with true.
+    cbn [andb]. repeat split; try lia.
+Qed.
